@@ -501,6 +501,38 @@ def assemble (cfg : Cfg) (files : List (List Stmt)) (start : Int) (stop : Option
   overlapCheck none es
   .ok { image := imageOf start stop (fill % 256) (memMap es), emitted := es, labels := L }
 
+/-! ## the image computed line by line (proved equal to the dictionary route: `C03.assemble_eq_fast`) -/
+
+def bump (acc : Option Int) (v : Int) : Int :=
+  match acc with
+  | none => v
+  | some y => max y v
+
+
+def lastStep (acc : Option Int) (e : Emitted) : Option Int :=
+  if e.isByte && !e.muted && decide (0 < e.bytes.length) then some (bump acc (e.addr + e.bytes.length - 1)) else acc
+
+/-- `max` over the unmuted byte lines that emit something of the address of their last byte -/
+def lastByteAddr (es : List Emitted) : Option Int := es.foldl lastStep none
+
+
+/-- the image computed line by line: for every address of the window the byte of the line that
+    covers it (the fill where none does) -/
+def imageFast (start : Int) (stop : Option Int) (fill : Nat) (es : List Emitted) : List Nat :=
+  let last := match stop with
+    | some e => e
+    | none => (lastByteAddr es).getD (start - 1)
+  (List.range (last + 1 - start).toNat).map fun (i : Nat) => specImageByte es fill (start + (i : Int))
+
+
+/-- `assemble` with the line-by-line image -/
+def assembleFast (cfg : Cfg) (files : List (List Stmt)) (start : Int) (stop : Option Int) (fill : Nat) :
+    Except Err Outcome := do
+  let (es, L) ← assembleLines cfg files
+  overlapCheck none es
+  .ok { image := imageFast start stop (fill % 256) es, emitted := es, labels := L }
+
+
 /-- spec-level overlap verdict: some two occupying byte lines share an address -/
 def overlapsSpec (es : List Emitted) : Bool :=
   let occ := es.filter fun e => e.isByte && decide (e.size > 0)
